@@ -157,6 +157,13 @@ def check(ctx):
                 okc = nearest.term.op == "getitem" and nearest.term.args[1] == cur.term and nearest.term.args[0].op == "argmin" and cutv.term.op == "getitem" and cutv.term.args[1] == cur.term and wts.term == w.term
                 ctx.ob("R-POINTCONSISTENT", f"_qs_next is called with the nearest neighbour and cut-off of the current point and the sample weights [{cfg}]", okc, f"current={cur.term!r}; nearest={repr(nearest.term)[:80]}; cutoff={repr(cutv.term)[:80]}", site, cfg)
                 okd = nearest.term.op == "getitem" and nearest.term.args[0].op == "argmin" and nearest.term.args[0].args[0] == dmat.term and dmat.term.op == "fill_diagonal"
+                if not okd and nearest.term.op == "getitem":
+                    # the same value in another spelling (the diagonal set through its index arrays, the minimum taken
+                    # along the other axis of the transposed matrix): compare normal forms
+                    from fractions import Fraction as _F
+
+                    want_nn = T("getitem", T("argmin", dmat.term, ("axis", T("const", _F(1)))), nearest.term.args[1])
+                    okd = N.nf(nearest.term) == N.nf(want_nn) and N.nf(dmat.term) == N.nf(T("fill_diagonal", dmat.term.args[0], T("const", "inf"))) if dmat.term.op in ("fill_diagonal", "store") and dmat.term.args else False
                 ctx.ob("R-POINTCONSISTENT", f"nearest neighbours are computed on the distance matrix whose diagonal is already inf (a point is not its own neighbour) [{cfg}]", okd, repr(nearest.term)[:140], site, cfg)
                 okn = nearest.term.op == "getitem" and any(isinstance(a_, tuple) and a_[0] == "axis" and a_[1] == T("const", __import__("fractions").Fraction(1)) for a_ in nearest.term.args[0].args)
                 ctx.ob("R-POINTCONSISTENT", f"nearest neighbours are the row-wise argmin of the distance matrix [{cfg}]", okn, repr(nearest.term)[:120], site, cfg, nontrivial=False)
